@@ -2,6 +2,7 @@ package fun
 
 import (
 	"fmt"
+	"sort"
 	"strconv"
 
 	"github.com/goghcrow/yae/types"
@@ -52,6 +53,7 @@ func stringify0(v *val.Val, inProcess util.PtrSet) string {
 		for k, v := range m.V {
 			xs = append(xs, fmt.Sprintf("%s: %s", k, stringify0(v, inProcess)))
 		}
+		sort.Strings(xs)
 		return util.JoinStr(xs, ", ", "[", "]")
 	case types.KObj:
 		o := v.Obj()
